@@ -25,6 +25,9 @@ RULE = (
     "have been pulled. Non-trivial = some token is handed over strictly before the end of the stream "
     "with >= 2 frames still unread."
 )
+RULE += (
+    ' Audio half also: max_read ending inside a window (samples pulled from a counting source never exceed it) and split(<named pipe>, large_file=True) with a drain-synchronised writer: bytes written when region i comes out <= end of its deciding window + 2 pieces.'
+)
 MUST_HIT = ["prefix_cut_inside_token", "flush_shorter_token", "handed_before_eos", "audio_lazy", "audio_overlapping_reader",
             "long_stream_sampled_prefixes", "audio_max_read_ends_inside_a_window", "audio_lazy_named_pipe"]
 ASSUMPTIONS = ["read-counting harness source (vf/tok.ListSource)"]
